@@ -6,7 +6,7 @@ records whether some static check reports a violation.  Survivors that no check 
 candidates for triage (do they break a property? -> new rule; are they equivalent? -> ignore).
 
   python -m sa.devtools.mutsweep gen            list mutants (count per operator)
-  python -m sa.devtools.mutsweep run [--limit N] [--ops a,b] [--files substr]
+  python -m sa.devtools.mutsweep run [--limit N] [--seed S] [--ops a,b] [--files substr]
 """
 from __future__ import annotations
 
@@ -196,7 +196,10 @@ def main():
     cmd = args[0] if args else "gen"
     ops = files = None
     limit = None
+    seed = 1
     for i, a in enumerate(args):
+        if a == "--seed":
+            seed = int(args[i + 1])
         if a == "--ops":
             ops = set(args[i + 1].split(","))
         if a == "--files":
@@ -224,7 +227,7 @@ def main():
         return
     if limit:
         import random
-        random.Random(1).shuffle(muts)
+        random.Random(seed).shuffle(muts)
         muts = muts[:limit]
     props = [c["property_id"] for c in json.load(open("/verif/MANIFEST.json"))["checks"]]
     os.makedirs(OUT, exist_ok=True)
